@@ -203,12 +203,13 @@ func main() {
 	}
 	type loc struct {
 		g     *gg.Gen
-		reset func()
+		reset func(int)
+		n     int
 	}
 	mk := func(vals []float64, k, m int) func(int) interface{} {
 		return func(int) interface{} {
-			next, reset := gg.Cyclic(vals)
-			return &loc{&gg.Gen{K: k, M: m, Depth: 3, NilSlice: true, Next: next}, reset}
+			next, reset := gg.CyclicAt(vals)
+			return &loc{n: len(vals) / 2, g: &gg.Gen{K: k, M: m, Depth: 3, NilSlice: true, Next: next}, reset: reset}
 		}
 	}
 	nt := func(c *mc.Ctx, g orb.Geometry) {
@@ -220,7 +221,7 @@ func main() {
 	}
 	r.Explore("roundtrip-noncollection", "full product of the 8 non-collection kinds (k=3,m=2), coordinates from the finite alphabet", mc.Opts{MaxDev: -1, Split: 3, NewLocal: mk(ffin, 3, 2)}, func(c *mc.Ctx) {
 		l := c.Local().(*loc)
-		l.reset()
+		l.reset(c.Choose(l.n))
 		g := l.g.Kind(c, c.Choose(gg.KCollection), 0, true)
 		roundTrip(c, g)
 		nt(c, g)
@@ -228,14 +229,14 @@ func main() {
 	dev := ev.Pick(r, 7, 9)
 	r.Explore("roundtrip-collections", fmt.Sprintf("collections nested to depth 3 within %d deviations, coordinates from the finite alphabet (exponent forms included)", dev), mc.Opts{MaxDev: dev, Split: 3, NewLocal: mk(ffin, 2, 2)}, func(c *mc.Ctx) {
 		l := c.Local().(*loc)
-		l.reset()
+		l.reset(c.Choose(l.n))
 		g := l.g.Kind(c, gg.KCollection, 0, true)
 		roundTrip(c, g)
 		nt(c, g)
 	})
 	r.Explore("roundtrip-collections-plain", fmt.Sprintf("the same collections with coordinates that never print in exponent form (so that flat collections of non-empty members must round-trip)"), mc.Opts{MaxDev: dev, Split: 3, NewLocal: mk(plain, 2, 2)}, func(c *mc.Ctx) {
 		l := c.Local().(*loc)
-		l.reset()
+		l.reset(c.Choose(l.n))
 		g := l.g.Kind(c, gg.KCollection, 0, true)
 		roundTrip(c, g)
 		nt(c, g)
